@@ -525,12 +525,47 @@ impl Task for ExternalEquivalenceTask {
         }
 
         let theory_translate = |program: asp::Program| {
+            // An output predicate that does not occur in the program has no rules: like every other
+            // predicate of Out without rules it is completed to `forall V (p(V) <-> #false)`
+            let program_predicates: IndexSet<fol::Predicate> =
+                program.predicates().into_iter().map(Into::into).collect();
+            let missing_outputs: Vec<fol::Predicate> = self
+                .user_guide
+                .output_predicates()
+                .into_iter()
+                .filter(|p| !program_predicates.contains(p))
+                .collect();
+
             // TODO: allow more formula representations beyond tau-star
             let mut theory = program
                 .tau_star()
                 .replace_placeholders(&placeholders)
                 .completion(self.user_guide.input_predicates())
                 .expect("tau_star did not create a completable theory");
+
+            for predicate in missing_outputs {
+                let variables: Vec<fol::Variable> = (1..=predicate.arity)
+                    .map(|i| fol::Variable {
+                        name: format!("V{i}"),
+                        sort: fol::Sort::General,
+                    })
+                    .collect();
+                theory.formulas.push(
+                    fol::Formula::BinaryFormula {
+                        connective: fol::BinaryConnective::Equivalence,
+                        lhs: fol::Formula::AtomicFormula(fol::AtomicFormula::Atom(fol::Atom {
+                            predicate_symbol: predicate.symbol,
+                            terms: variables
+                                .iter()
+                                .map(|v| fol::GeneralTerm::Variable(v.name.clone()))
+                                .collect(),
+                        }))
+                        .into(),
+                        rhs: fol::Formula::AtomicFormula(fol::AtomicFormula::Falsity).into(),
+                    }
+                    .quantify(fol::Quantifier::Forall, variables),
+                );
+            }
 
             if self.simplify {
                 let mut portfolio = [INTUITIONISTIC, HT, CLASSIC].concat().into_iter().compose();
